@@ -12,28 +12,32 @@
 EXTENDS Naturals, Sequences, FiniteSets, TLC, Json
 CONSTANT MaxLen
 Slots == {1, 2}
-VARIABLES reg, hist
-vars == <<reg, hist>>
-Init == reg = {} /\ hist = <<>>
+VARIABLES reg,      \* registered extension slots
+          nm,       \* nm[slot]: the name (1 or 2) the slot carries
+          hist
+vars == <<reg, nm, hist>>
+Init == reg = {} /\ nm = [i \in Slots |-> i] /\ hist = <<>>
 Step(op, slot, obs) == hist' = Append(hist, [op |-> op, slot |-> slot, obs |-> obs])
-Register(i) == i \notin reg /\ reg' = reg \cup {i} /\ Step("register", i, "ok")
-ByName(i) == UNCHANGED reg /\ Step("by-name", i, IF i \in reg THEN "value" ELSE "unknown")
-ByValue(i) == UNCHANGED reg /\ Step("by-value", i, IF i \in reg THEN "name" ELSE "none")
+\* slot i is registered under the name it carries
+Register(i) == i \notin reg /\ reg' = reg \cup {i} /\ UNCHANGED nm /\ Step("register", i, "ok")
+\* both values are registered again with their names exchanged: afterwards each name denotes the other value, and only that one
+Swap == reg = Slots /\ nm' = [i \in Slots |-> nm[3 - i]] /\ UNCHANGED reg /\ Step("swap", 0, "ok")
+Holder(n) == {s \in reg : nm[s] = n}
+ByName(n) == UNCHANGED <<reg, nm>> /\ Step("by-name", n, IF Holder(n) = {} THEN "unknown" ELSE IF 1 \in Holder(n) THEN "value:1" ELSE "value:2")
+ByValue(i) == UNCHANGED <<reg, nm>> /\ Step("by-value", i, IF i \in reg THEN (IF nm[i] = 1 THEN "name:1" ELSE "name:2") ELSE "none")
 \* lookups of a pinned entry of the same enumeration: always found, whatever was registered since
-BaseByName == UNCHANGED reg /\ Step("base-by-name", 0, "value")
-BaseByValue == UNCHANGED reg /\ Step("base-by-value", 0, "name")
+BaseByName == UNCHANGED <<reg, nm>> /\ Step("base-by-name", 0, "value")
+BaseByValue == UNCHANGED <<reg, nm>> /\ Step("base-by-value", 0, "name")
 \* the value written by the XML / JSON writers and read back
-Write(i) == UNCHANGED reg /\ Step("write", i, IF i \in reg THEN "by-name" ELSE "hex")
+Write(i) == UNCHANGED <<reg, nm>> /\ Step("write", i, IF i \in reg THEN (IF nm[i] = 1 THEN "name:1" ELSE "name:2") ELSE "hex")
 Next == /\ Len(hist) < MaxLen
         /\ \/ \E i \in Slots : (Register(i) \/ ByName(i) \/ ByValue(i) \/ Write(i))
+           \/ Swap
            \/ BaseByName
            \/ BaseByValue
 Spec == Init /\ [][Next]_vars
-\* the observation of a lookup is a function of the registrations before it, not of earlier lookups
-RegOf(h, k) == {h[j].slot : j \in {x \in 1..(k - 1) : h[x].op = "register"}}
-ObsFunctional == \A k \in 1..Len(hist) :
-                   /\ (hist[k].op = "by-name" => (hist[k].obs = "value") = (hist[k].slot \in RegOf(hist, k)))
-                   /\ (hist[k].op = "write" => (hist[k].obs = "by-name") = (hist[k].slot \in RegOf(hist, k)))
-                   /\ (hist[k].op = "by-value" => (hist[k].obs = "name") = (hist[k].slot \in RegOf(hist, k)))
+\* the registry is a bijection between registered slots and the names they carry, at every step
+Bijective == \A n \in Slots : Cardinality(Holder(n)) <= 1
+ObsFunctional == Bijective
 Emit == Len(hist) = MaxLen => PrintT(<<"CASE", ToJson([h |-> hist])>>)
 =============================================================================
